@@ -215,16 +215,18 @@ func promHTTP(expr func(p *plan) (q string, rng int64), instant bool) func(p *pl
 		p.widen(0)
 		p.Req = httpReq{Method: "GET", Path: "/api/v1/query_range", Query: qs("query", q, "start", secs(p.From), "end", secs(p.To), "step", secs(step))}
 		p.Desc = q
-		margin := int64(0)
+		margin, shift := int64(0), int64(0)
 		if step >= 15*sec {
-			margin = 15 * sec
+			// pre-aggregated path: samples are reported at the start of their 15 s bucket and of their
+			// step bucket (multiples of the step since the epoch): how far that moves a point is C17's
+			// subject; only probes visible under any such shift are required
+			margin, shift = 15*sec, step
 		}
 		p.Expect = func(it *item) bool {
-			// visible iff some evaluation time t = start + k*step <= end has the sample in (t-look, t],
-			// robustly against the 15 s storage rounding
+			// visible iff some evaluation time t = start + k*step <= end has the sample in (t-look, t]
 			tsMs := floorDiv(it.Ts, 1e6) * 1e6
 			for t := start; t <= end; t += step {
-				if t >= tsMs+margin && t-look < tsMs-margin {
+				if t >= tsMs+margin && t-look < tsMs-margin-shift {
 					return true
 				}
 			}
